@@ -1,6 +1,8 @@
 import Driver.StoreDrv
+import Driver.CodecDrv
 
 def main (args : List String) : IO UInt32 := do
   match args with
   | ["store"] => Driver.StoreDrv.main; return 0
+  | ["codec"] => Driver.CodecDrv.main; return 0
   | _ => IO.eprintln "usage: mdkdrv store < ops"; return 2
